@@ -28,7 +28,7 @@ VARIANTS = {
 
 # program name -> harness sources
 PROGRAMS = {
-    'hx': ['hx_main.c', 'hx_core.c', 'hx_util.c', 'hx_alloc.c', 'hx_seg.c', 'hx_mutate.c', 'hx_cost.c'],
+    'hx': ['hx_main.c', 'hx_core.c', 'hx_util.c', 'hx_alloc.c', 'hx_seg.c', 'hx_mutate.c', 'hx_cost.c', 'hx_conc.c'],
     'en_c13': ['en_c13.c', 'hx_util.c', 'hx_alloc.c', 'hx_stub.c', 'hx_cost.c'],
     'en_c12': ['en_c12.c', 'hx_util.c', 'hx_alloc.c', 'hx_stub.c', 'hx_cost.c'],
     'en_c15': ['en_c15.c', 'hx_util.c', 'hx_alloc.c', 'hx_stub.c', 'hx_cost.c'],
